@@ -97,25 +97,24 @@ public:
 	}
 
 	value_type &push_back(const T &element) {
-		_ensure_capacity(_size + 1);
-		auto container = _get_container();
-		T *pointer = new (&container[_size]) T(element);
-		_size++;
-		return *pointer;
+		return emplace_back(element);
 	}
 	value_type &push_back(T &&element) {
-		_ensure_capacity(_size + 1);
-		auto container = _get_container();
-		T *pointer = new (&container[_size]) T(std::move(element));
-		_size++;
-		return *pointer;
+		return emplace_back(std::move(element));
 	}
 
 	template<typename... Args>
 	value_type &emplace_back(Args&&... args) {
-		_ensure_capacity(_size + 1);
-		auto container = _get_container();
-		T *pointer = new (&container[_size]) T(std::forward<Args>(args)...);
+		T *pointer;
+		if (_size < _capacity) {
+			auto container = _get_container();
+			pointer = new (&container[_size]) T(std::forward<Args>(args)...);
+		} else {
+			// The arguments may refer to elements of this vector.
+			_reallocate(_size + 1, [&] (T *new_array) {
+				pointer = new (&new_array[_size]) T(std::forward<Args>(args)...);
+			});
+		}
 		_size++;
 		return *pointer;
 	}
@@ -129,15 +128,20 @@ public:
 
 	template<typename... Args>
 	void resize(size_t new_size, Args&&... args) {
-		_ensure_capacity(new_size);
 		auto container = _get_container();
 		if (new_size < _size) {
 			for (size_t i = new_size; i < _size; i++)
 				container[i].~T();
-		} else {
+		} else if (new_size <= _capacity) {
 			// The arguments initialize several elements: they must not be forwarded (moved from).
 			for (size_t i = _size; i < new_size; i++)
 				new (&container[i]) T(args...);
+		} else {
+			// The arguments may refer to elements of this vector.
+			_reallocate(new_size, [&] (T *new_array) {
+				for (size_t i = _size; i < new_size; i++)
+					new (&new_array[i]) T(args...);
+			});
 		}
 		_size = new_size;
 	}
@@ -198,10 +202,18 @@ private:
 	void _ensure_capacity(size_t capacity) {
 		if (capacity <= _capacity)
 			return;
+		_reallocate(capacity, [] (T *) { });
+	}
 
-		auto container = _get_container();		
+	// Moves the elements to new storage for at least the given capacity. construct_new(array)
+	// is called to construct further elements in the new storage while the old storage is still
+	// intact, so that its arguments may refer to elements of this vector (v.push_back(v[0])).
+	template<typename F>
+	void _reallocate(size_t capacity, F construct_new) {
+		auto container = _get_container();
 		size_t new_capacity = capacity * 2;
 		T *new_array = (T *)_allocator.allocate(sizeof(T) * new_capacity);
+		construct_new(new_array);
 		for(size_t i = 0; i < _size; i++)
 			new (&new_array[i]) T(std::move(container[i]));
 
